@@ -7,6 +7,8 @@ pub mod codec;
 pub mod gen;
 pub mod containers;
 pub mod sources;
+pub mod cli;
+pub mod server;
 pub mod vpltree;
 
 pub use engine::{guard, Check, Fail, Obs, Tier};
